@@ -718,6 +718,57 @@ fn local_tx(r: &mut Rng, sess: &mut Session, out: &mut Out, ctx: &mut Ctx, who: 
     else { run_cmd(&format!("crdt.commit {}", who), sess, out, ctx); }
 }
 
+/// scripted family: ONE batch reaches the tracked replica that (a) removes / overwrites / increments the
+/// value it currently shows for a register and (b) carries a concurrent older op for the same register
+/// (written by a replica that forked before that value existed, so its op id is smaller), for map keys
+/// and list elements, counters and non-counters, in both orders inside the batch
+fn scripted_batch(r: &mut Rng, sess: &mut Session, out: &mut Out, ctx: &mut Ctx) {
+    out.count("cases_scripted_batch");
+    let mut a: Vec<Vec<u8>> = vec![vec![0x30, r.next() as u8], vec![0x50, r.next() as u8], vec![0x70, r.next() as u8]];
+    if r.chance(1, 2) { a.reverse(); }
+    run_cmd(&format!("crdt.new r0 cp {}", hex::encode(&a[0])), sess, out, ctx);
+    let on_list = r.chance(1, 3);
+    let vals = ["c3", "c7", "i4", "s79", "n"];
+    let mut target = "_".to_string();
+    let mut prop = "m61".to_string();
+    if on_list {
+        let res = exec_line(sess, "crdt.putobj r0 _ m6c L", out);
+        target = res[0].strip_prefix("ok ").unwrap_or("_").to_string();
+        run_cmd(&format!("crdt.ins r0 {} 0 i1", target), sess, out, ctx);
+        prop = "i0".to_string();
+    }
+    run_cmd("crdt.commit r0", sess, out, ctx);
+    // the old writer forks NOW (its counter stays small), the tracked replica too
+    run_cmd(&format!("crdt.fork r0 rs {}", hex::encode(&a[1])), sess, out, ctx);
+    run_cmd(&format!("crdt.patch.track r0 p0 {}", hex::encode(&a[2])), sess, out, ctx);
+    run_cmd("incr p0", sess, out, ctx);
+    // r0 advances its op counter, then sets the contested register; p0 receives all of that
+    for i in 0..r.range(2, 5) { run_cmd(&format!("crdt.put r0 _ m7a{:02x} i{}", i, i), sess, out, ctx); run_cmd("crdt.commit r0", sess, out, ctx); }
+    run_cmd(&format!("crdt.put r0 {} {} {}", target, prop, vals[r.below(5) as usize]), sess, out, ctx);
+    run_cmd("crdt.commit r0", sess, out, ctx);
+    let n0 = ctx.all_changes.len();
+    run_cmd(&format!("deliver p0 {}", (0..n0).map(|x| x.to_string()).collect::<Vec<_>>().join(",")), sess, out, ctx);
+    run_cmd("incr p0", sess, out, ctx);
+    // the old writer writes the register (small op id); r0 removes / overwrites / increments its own value
+    match r.below(3) { 0 => run_cmd(&format!("crdt.put rs {} {} {}", target, prop, vals[r.below(5) as usize]), sess, out, ctx),
+                        1 => run_cmd(&format!("crdt.inc rs {} {} 2", target, prop), sess, out, ctx),
+                        _ => run_cmd(&format!("crdt.del rs {} {}", target, prop), sess, out, ctx) }
+    run_cmd("crdt.commit rs", sess, out, ctx);
+    match r.below(4) { 0 | 1 => run_cmd(&format!("crdt.del r0 {} {}", target, prop), sess, out, ctx),
+                        2 => run_cmd(&format!("crdt.put r0 {} {} {}", target, prop, vals[r.below(5) as usize]), sess, out, ctx),
+                        _ => run_cmd(&format!("crdt.inc r0 {} {} 1", target, prop), sess, out, ctx) }
+    run_cmd("crdt.commit r0", sess, out, ctx);
+    if r.chance(1, 3) { run_cmd(&format!("crdt.put r0 {} {} {}", target, prop, vals[r.below(5) as usize]), sess, out, ctx); run_cmd("crdt.commit r0", sess, out, ctx); }
+    let n1 = ctx.all_changes.len();
+    let mut batch: Vec<usize> = (n0..n1).collect();
+    if r.chance(1, 2) { batch.reverse(); }
+    run_cmd(&format!("deliver p0 {}", batch.iter().map(|x| x.to_string()).collect::<Vec<_>>().join(",")), sess, out, ctx);
+    run_cmd("incr p0", sess, out, ctx);
+    // and the same through merge into a second tracked flow: everybody converges
+    run_cmd(&format!("deliver r0 {}", (0..n1).map(|x| x.to_string()).collect::<Vec<_>>().join(",")), sess, out, ctx);
+    run_cmd("diff p0 - cur", sess, out, ctx);
+}
+
 fn idxs(r: &mut Rng, n: usize, k: usize) -> String {
     (0..k).map(|_| r.below(n as u64).to_string()).collect::<Vec<_>>().join(",")
 }
@@ -733,6 +784,7 @@ pub fn generate(r: &mut Rng, opts: &BTreeMap<String, String>, sess: &mut Session
         }
         return;
     }
+    if r.chance(1, 5) { return scripted_batch(r, sess, out, &mut ctx); }
     let enc = ["cp", "utf8", "utf16"][r.below(3) as usize];
     let mut actors: Vec<Vec<u8>> = (0..10).map(|i| vec![0x10 * (10 - i as u8) + r.below(8) as u8, r.next() as u8]).collect();
     if r.chance(1, 2) { actors.reverse(); }
@@ -745,7 +797,28 @@ pub fn generate(r: &mut Rng, opts: &BTreeMap<String, String>, sess: &mut Session
     if focused { out.count("cases_focused"); }
     let steps = r.range(8, 28);
     let track_at = r.below(steps / 2 + 1);
+    // a "sleeper": forked at the very start, silent while the others advance their op counters, it
+    // writes to the contested registers late — its ops then have SMALLER ids than the values the
+    // others hold — and everything outstanding reaches the tracked replica in ONE batch
+    let sleeper = focused && r.chance(1, 2);
+    let wake = steps * 2 / 3 + 1;
+    if sleeper {
+        next_actor += 1;
+        run_cmd(&format!("crdt.fork r0 rs {}", hex::encode(&actors[next_actor - 1])), sess, out, &mut ctx);
+        out.count("sleeper_cases");
+    }
     for step in 0..steps {
+        if sleeper && step == wake && tracked.is_some() {
+            for _ in 0..r.range(1, 3) { local_tx(r, sess, out, &mut ctx, "rs", true); }
+            let nch = ctx.all_changes.len();
+            if nch > 0 {
+                let mut all: Vec<usize> = (0..nch).collect();
+                for i in (1..all.len()).rev() { let j = r.below(i as u64 + 1) as usize; all.swap(i, j); }
+                run_cmd(&format!("deliver p0 {}", all.iter().map(|x| x.to_string()).collect::<Vec<_>>().join(",")), sess, out, &mut ctx);
+                run_cmd("incr p0", sess, out, &mut ctx);
+            }
+            continue;
+        }
         if step == track_at {
             let src = names[r.below(names.len() as u64) as usize].clone();
             next_actor += 1;
